@@ -225,8 +225,14 @@ func (b *mBucket) delete(r *Cache, h *mHead, hash uint32, ns, key uint64) (done,
 	b.mu.Unlock()
 
 	if deleted {
-		// Call delete funcs.
-		for _, f := range n.delFuncs {
+		// Call delete funcs. Take them away from the node: a Release that
+		// brought the counter to zero before this removal may still reach
+		// callFinalizer for the same node after Close.
+		n.mu.Lock()
+		delFuncs := n.delFuncs
+		n.delFuncs = nil
+		n.mu.Unlock()
+		for _, f := range delFuncs {
 			f()
 		}
 
